@@ -1141,3 +1141,127 @@ def check_C20(ctx):
     ctx.coverage["evaluations"] = nvec + len(jobs)
     ctx.coverage["distinct_nontrivial"] = nvec + len(scens)
     ctx.coverage["growth_step"] = step
+
+
+# ---- C16: argument-list tokenizer and binding -------------------------------------------------
+IDENTS = ["n", "next", "nx", "xn", "d", "dd", "a", "ab", "abc", "bc", "p0", "p01", "value", "box", "box_doubled", "d_x", "x_d", "len", "buf_len", "buf"]
+
+
+def spell(rng, args, style=None):
+    """One of the spellings the preprocessor can produce for the argument list (after stringification every run of
+    white space between tokens is a single blank; none at the ends) - plus raw variants with tabs/newlines for the tokenizer."""
+    ws = (lambda: rng.choice(["", " "])) if style != "raw" else (lambda: rng.choice(["", " ", "  ", "\t", "\n", " \n "]))
+    parts = []
+    for ident, dbl in args:
+        if dbl:
+            parts.append("box_double" + ws() + "(" + ws() + ident + ws() + ")")
+        else:
+            parts.append(ident)
+    out = ""
+    for i, p in enumerate(parts):
+        if i:
+            out += ws() + "," + ws()
+        out += p
+    return out
+
+
+def gen_arglist(rng, n):
+    names = rng.sample(IDENTS, n)
+    return [(nm, rng.random() < 0.3) for nm in names]
+
+
+def check_C16(ctx):
+    lean_check(ctx)
+    rng = random.Random(ctx.seed * 1000 + 16)
+    impl = build_impl(ctx, asan=True)
+    exe = compile_harness(ctx, impl, "tok_probe", ["tok_probe.c"])
+    cases = []
+    for n in range(0, 13):
+        for _ in range(sizes(ctx, 60, 1500)):
+            args = gen_arglist(rng, n)
+            cases.append((args, spell(rng, args, rng.choice([None, None, "raw"]))))
+    for n in (20, 40, 63):
+        args = [(f"q{i}", i % 5 == 0) for i in range(n)]
+        cases.append((args, spell(rng, args)))
+    lines = [hexs(s.encode()) for _, s in cases]
+    got, rc, err = run_probe(exe, lines, env=asan_env())
+    model = run_model(["tok"], "\n".join(lines) + "\n").split("\n")[:-1]
+    ndis = nor = 0
+    if rc != 0 or len(got) != len(lines):
+        bad = cases[min(len(got), len(cases) - 1)]
+        ctx.violation(f"[C16] the tokenizer crashed (exit {rc}) on the argument list {bad[1]!r}: " + " ".join(l for l in err.split("\n") if "ERROR" in l or "SUMMARY" in l)[:300],
+                      repr(bad[1]), found_input=True, facts={"crash": True})
+    else:
+        for (args, s), g, m in zip(cases, got, model):
+            if g != m:
+                ndis += 1
+                if ndis <= 3:
+                    ctx.oblige("correspondence C16 (tokenizer)", False, f"{s!r}: model `{m}` impl `{g}`")
+            want = f"names {'|'.join(a for a, _ in args)} markers {''.join('1' if d else '0' for _, d in args)} count {len(args)}"
+            if g != want:
+                nor += 1
+                if nor <= 4:
+                    ctx.violation(f"[C16] the argument list {s!r} is tokenised as `{g}`, the arguments are `{want}`", "# hex for harness/tok_probe: " + hexs(s.encode()) + "\n" + s, found_input=True,
+                                  facts={"box_double_spaced": bool(re.search(r"box_double\s*\(\s+|\s+\)|box_double\s+\(", s)), "box_double_prefix_name": any(a.startswith("box_double") and not d for a, d in args)})
+    ctx.oblige("correspondence C16: tokenizer model and implementation agree on every spelling", ndis == 0, f"{ndis} disagreements")
+    # ---- binding through the real preprocessor: a generated translation unit ----
+    src, expected = gen_bind_tu(rng, sizes(ctx, 60, 400))
+    path = os.path.join(ctx.work, "bind_probe.c")
+    open(path, "w").write(src)
+    bexe = compile_harness(ctx, impl, "bind_probe", [path])
+    r = subprocess.run([bexe], stdout=subprocess.PIPE, stderr=subprocess.PIPE, env=asan_env(), timeout=300)
+    outl = r.stdout.decode().split("\n")[:-1]
+    shown = 0
+    if r.returncode != 0:
+        last = outl[-1] if outl else "(nothing)"
+        k = len(outl)
+        ctx.violation(f"[C16] the generated mock functions crashed (exit {r.returncode}) in case #{k} {expected[k][0] if k < len(expected) else ''}: " +
+                      " ".join(l for l in r.stderr.decode('latin-1').split("\n") if "ERROR" in l or "SUMMARY" in l)[:300],
+                      expected[k][2] if k < len(expected) else src[:2000], found_input=True,
+                      facts={"crash": True, "box_double_spaced": "box_double (" in (expected[k][2] if k < len(expected) else "") or "( " in (expected[k][2] if k < len(expected) else "")})
+    for (desc, want, snippet), g in zip(expected, outl):
+        if g != want and shown < 5:
+            shown += 1
+            ctx.violation(f"[C16] {desc}: got `{g}`, expected `{want}` (pass fail captured-ok)", snippet, found_input=True, facts={"binding": True})
+    ctx.coverage["correspondence"] = {"cases": len(cases) + len(expected), "tokenizer_strings": len(cases), "binding_cases": len(expected), "disagreements": ndis, "oracle_failures": nor}
+    ctx.coverage["samples"] = [cases[5][1], cases[len(cases) // 2][1], expected[0][0]]
+    ctx.coverage["evaluations"] = len(cases) + len(expected)
+    ctx.coverage["distinct_nontrivial"] = len({s for _, s in cases}) + len(expected)
+
+
+def gen_bind_tu(rng, nfuncs):
+    """C source with mock functions of arity 0-8 whose mock(...) argument lists are spelled in various ways, and for each
+    one test per parameter position (a when() clause, a capture, and a clause naming an absent parameter)."""
+    out = ['#include <cgreen/cgreen.h>', '#include <cgreen/mocks.h>', '#include <stdio.h>', '#include <string.h>', '#include <stdarg.h>',
+           '#ifdef __cplusplus', 'using namespace cgreen;', '#endif',
+           'static int npass, nfail;',
+           'static void capture(TestReporter *r, const char *f, int l, int result, const char *m, ...) { (void)r;(void)f;(void)l;(void)m; if (result) npass++; else nfail++; }',
+           'extern CgreenTest *current_test;', 'static CgreenTest dummy = { 0, &defaultContext, "t", NULL, "f", 1 };']
+    expected = []
+    calls = []
+    for k in range(nfuncs):
+        n = k % 9
+        args = gen_arglist(rng, n)
+        params = ", ".join(("double " if d else "intptr_t ") + a for a, d in args) or "void"
+        seps = [rng.choice([",", ", ", " ,", " , ", ",\n        ", "\n  ,  "]) for _ in range(max(0, n - 1))]
+        pieces = []
+        for a, d in args:
+            pieces.append(rng.choice(["box_double(%s)", "box_double( %s )", "box_double (%s)", "box_double(\n %s\n )", "box_double ( %s)"]) % a if d else a)
+        spelled = "".join(p + (seps[i] if i < len(seps) else "") for i, p in enumerate(pieces))
+        out.append(f"static intptr_t fn_{k}({params}) {{ return mock({spelled}); }}")
+        vals = [100 + 7 * i for i in range(n)]
+        callargs = ", ".join((f"{v}.5" if d else str(v)) for v, (a, d) in zip(vals, args))
+        snippet = f"static intptr_t fn_{k}({params}) {{ return mock({spelled}); }}"
+        for j, (a, d) in enumerate(args):
+            cons = f"is_equal_to_double({vals[j]}.5)" if d else f"is_equal_to({vals[j]})"
+            calls.append(f'  npass = nfail = 0; expect(fn_{k}, when({a}, {cons})); fn_{k}({callargs}); clear_mocks(); printf("%d %d -\\n", npass, nfail);')
+            expected.append((f"fn_{k} arity {n}: when({a}, ...) at position {j}", "1 0 -", snippet + f"\n/* expect(fn_{k}, when({a}, {cons})); fn_{k}({callargs}); */"))
+            if not d:
+                calls.append(f'  {{ intptr_t got = -1; npass = nfail = 0; expect(fn_{k}, will_capture_parameter({a}, got)); fn_{k}({callargs}); clear_mocks(); printf("%d %d %s\\n", npass, nfail, got == {vals[j]} ? "ok" : "wrong"); }}')
+                expected.append((f"fn_{k} arity {n}: will_capture_parameter({a}) at position {j}", "0 0 ok", snippet))
+        calls.append(f'  npass = nfail = 0; expect(fn_{k}, when(no_such_parameter, is_equal_to(1))); fn_{k}({callargs}); clear_mocks(); printf("%d %d -\\n", npass, nfail);')
+        expected.append((f"fn_{k} arity {n}: clause naming an absent parameter", "0 1 -", snippet))
+    out.append("int main(void) {\n  TestReporter *reporter = create_reporter();\n  reporter->assert_true = &capture;\n  setup_reporting(reporter);\n  current_test = &dummy;\n  setvbuf(stdout, NULL, _IONBF, 0);")
+    out += calls
+    out.append("  return 0;\n}")
+    return "\n".join(out) + "\n", expected
